@@ -622,6 +622,86 @@ static const char* cb_verify(var c, int ck, const int* ids, const int* keys, int
   return NULL;
 }
 
+
+/* a type whose assignment ALLOCATES: every copy makes its own two managed leaves, with a callback point after each -
+** copy(x) / assign(fresh, x) / container-of-Deep operations must keep what the half-built object already holds alive */
+struct Deep { var a; var b; int64_t id; };
+extern var Deep;
+static void Deep_New(var self, var args) { struct Deep* d = self; d->id = len(args) ? c_int(get(args, $I(0))) : -1; d->a = NULL; d->b = NULL; }
+static void Deep_Assign(var self, var obj) {
+  struct Deep* d = self; struct Deep* o = obj;
+  d->id = o->id;
+  d->a = new(Int, $I(o->id * 2));     cb_point(1);
+  d->b = new(Int, $I(o->id * 2 + 1)); cb_point(1);
+}
+var Deep = Cello(Deep, Instance(New, Deep_New), Instance(Assign, Deep_Assign));
+static const char* deep_ok(var x, int id) {
+  struct Deep* d = x;
+  if (d->id != id) return "copy-holds-another-value";
+  if (!d->a || !d->b) return "copy-incomplete";
+  if (!mem(gc, d->a) || !mem(gc, d->b)) return "sub-object-of-the-copy-reclaimed";
+  if (type_of(d->a) != Int || type_of(d->b) != Int || c_int(d->a) != id * 2 || c_int(d->b) != id * 2 + 1) return "sub-object-of-the-copy-damaged";
+  return NULL;
+}
+/* only receivers that are themselves reachable while the assignment runs: a registered object held on the stack, or an
+** element that is already counted in its container.  (An element still under construction - push, a new key - is not yet
+** reachable by the property's definition, and the library builds elements before it links them.) */
+enum { DO_COPY, DO_ASSIGN_FRESH, DO_ARRAY_SET, DO_LIST_SET, DO_ASSIGN_HELD_TWICE, DO_N };
+static const char* DONAME[] = { "copy(x)", "assign(new(T), x)", "set(Array<T>, existing index, x)", "set(List<T>, existing index, x)", "assign(y, x) twice" };
+static void deep_mode(void) {
+  for (int op = 0; op < DO_N; op++) {
+    int ncb = 0;
+    for (int k = 0; k <= ncb; k++) {
+      vf_watchdog(60);
+      vf_set_cur("deepcopy op=%d k=%d | %s with an assignment that allocates two managed sub-objects, forced collection inside callback #%d%s", op, k, DONAME[op], k, k ? "" : " (none: counting run)");
+      gc = new_raw(GC, $R(stack_bottom));
+      volatile var src = new(Deep, $I(7)); volatile var src2 = new(Deep, $I(8));
+      volatile var res = NULL, cont = NULL;
+      scrub_stack();
+      cb_kinds = 1; cb_count = 0; cb_fire_at = k;
+      var e = VF_CATCH({
+        switch (op) {
+        case DO_COPY: res = copy((var)src); break;
+        case DO_ASSIGN_FRESH: res = new(Deep, $I(0)); assign((var)res, (var)src); break;
+        case DO_ARRAY_SET: case DO_LIST_SET: {
+          cb_fire_at = 0;                          /* building the container is not the operation under test */
+          cont = op == DO_ARRAY_SET ? (var)new(Array, Deep) : (var)new(List, Deep);
+          push((var)cont, (var)src2); push((var)cont, (var)src);
+          cb_count = 0; cb_fire_at = k;
+          set((var)cont, $I(0), (var)src); set((var)cont, $I(1), (var)src2);
+          break; }
+        case DO_ASSIGN_HELD_TWICE: res = new(Deep, $I(0)); assign((var)res, (var)src2); assign((var)res, (var)src); break;
+        }
+      });
+      cb_fire_at = 0;
+      if (k == 0) ncb = cb_count;
+      vf.executions++; vf.transitions++; vf.states++; if (k) vf.nontrivial++;
+      const char* why = NULL;
+      if (e) why = "operation-raises";
+      else {
+        scrub_stack(); GC_Mark(gc); GC_Sweep(gc);
+        volatile const char* w = NULL;
+        var e2 = VF_CATCH({
+          if (res) w = deep_ok((var)res, 7);
+          if (!w && cont) {
+            if (len((var)cont) != 2) w = "container-length";
+            else for (int i = 0; i < 2 && !w; i++) w = deep_ok(get((var)cont, $I(i)), 7 + i);
+          }
+        });
+        why = e2 ? "reading-back-raises" : (const char*)w;
+      }
+      vf.evaluations++;
+      if (why) {
+        snprintf(labelbuf, sizeof labelbuf, "callbacks/allocating-assign/%s/%s/%s", DONAME[op], k ? "collection-inside-callback" : "collection-after-operation", why);
+        vf_violation(labelbuf, NULL, "%s, collection inside callback #%d of %d: %s", DONAME[op], k, ncb, why);
+      }
+      src = NULL; src2 = NULL; res = NULL; cont = NULL;
+      var e3 = VF_CATCH(del_raw(gc)); (void)e3; gc = NULL;
+    }
+  }
+  cb_kinds = (int)vf_param_i("cbkinds", 7);
+}
+
 static void callbacks_mode(void) {
   vf.phase = "c01-callbacks";
   int maxn = (int)vf_param_i("maxn", 4);
@@ -682,7 +762,7 @@ int main(int argc, char** argv) {
 
   const char* mode = vf_param("mode", "shapes");
   if (strcmp(mode, "ladder") == 0) { ladder(); }
-  else if (strcmp(mode, "callbacks") == 0) { callbacks_mode(); }
+  else if (strcmp(mode, "callbacks") == 0) { callbacks_mode(); deep_mode(); }
   else if (strcmp(mode, "chain") == 0) {
     if (vf.replay) { long k, l; if (sscanf(vf.replay, "chain kind=%ld len=%ld", &k, &l) == 2) { /* run just that one */
         struct chain_arg a = { (int)k, l }; struct vf_child r = vf_fork_run(chain_child, &a, 300);
